@@ -7,6 +7,9 @@ if ! git diff --quiet; then echo "repo dirty"; exit 2; fi
 git apply "$PATCH" || { echo "patch does not apply"; exit 2; }
 cd /verif
 for p in "$@"; do
+  # the evidence file of a run against a modified tree must never replace the one of the unchanged tree
+  cp "evidence/$p.json" "/tmp/evidence-$p.json.keep" 2>/dev/null
   timeout 1500 ./check "$p" quick 2>&1 | grep -E "^(VIOLATION|OK|KNOWN)|obligations|cases," | head -8
+  [ -f "/tmp/evidence-$p.json.keep" ] && mv "/tmp/evidence-$p.json.keep" "evidence/$p.json"
 done
 cd /repo && git checkout -- . && git status --short | head -3
